@@ -13,10 +13,10 @@ META = {
                  "least_squares/jacobian_fd with abstract residual, Norm and box-QP oracles) + bit-exact replay correspondence "
                  "of the model on Float against logged runs of the real python/mujoco/minimize.py + property oracle on the real runs",
     "text": "Model: the whole of least_squares (jacobian=None, fixed x_scale) and jacobian_fd, statement by statement, over MjNum: "
-            "clip of x0, forward/backward FD probes, dlower/dupper, H = hess + mu I, candidate x + D*dx, Armijo accept rule, "
+            "clip of x0, forward/backward FD probes, dlower/dupper, H = hess + mu I, candidate clip(x + D*dx), Armijo accept rule, "
             "Fletcher mu updates, the five termination statuses, the trace. Proved over R for every residual function, Norm object, "
-            "start point and scaling D > 0: every residual evaluation point and the returned x lie in the box (box-QP answers "
-            "feasible, each box side >= 2 FD steps); every accepted step has objective <= the previous one, the trace is "
+            "start point and scaling D: every residual evaluation point and the returned x lie in the box (each box side >= 2 FD "
+            "steps; nothing assumed of the box-QP answers but their length, because the candidate is clipped), and on ANY carrier with a reflexive total order (doubles without NaN) the clipped candidate is in the box with no arithmetic hypothesis; every accepted step has objective <= the previous one, the trace is "
             "non-increasing and the final objective <= the objective at the clipped start (box-QP answers are descent directions, "
             "c1 >= 0); a G_TOL stop at tolerance 0 is a KKT point, hence a global minimiser over the box of any objective lying "
             "above the code's own linearisation (linear residuals) [partial]. Tie: the residual, a Norm proxy around the tree's "
@@ -24,12 +24,15 @@ META = {
             "model is executed on Float with the three oracles answering from the log and must reproduce bit for bit every "
             "evaluation point in order, the trace (x, objective, reduction, mu), the status, the iteration and evaluation counts.",
     "note": "mju_boxQP comes from the pre-built wheel (not the tree's engine): it is an abstract oracle in the model with the contract "
-            "`dlower <= dx <= dupper` (used for the bounds theorems) and `grad.dx <= 0` (used for monotonicity; minimize.py never "
-            "checks either: it only tests the return value n_free >= 0); both are monitored on every logged call (evidence: "
-            "boxqp_contract). 'Bounds wider than the FD step' is formalised as 'each side >= 2 steps' (theorem "
-            "fd_probe_escapes_narrow_box shows 1 step is not enough); generated boxes satisfy it with margin. Theorems are over R: "
-            "in floating point the unclipped candidate x + D*dx does leave the box (reported under "
-            "c46:candidate-outside-bounds-by-rounding with Float witnesses computed by the Lean driver). Dot products / norms of the "
+            "`dlower <= dx <= dupper` (no longer needed by the bounds theorems since the candidate is clipped) and `grad.dx <= 0` "
+            "(used for monotonicity; minimize.py never checks either: it only tests the return value n_free >= 0); both are monitored "
+            "on every logged call (evidence: boxqp_contract). 'Bounds wider than the FD step' is formalised as 'each side >= 2 steps' "
+            "(theorem fd_probe_escapes_narrow_box shows 1 step is not enough); generated boxes satisfy it with margin. History: before "
+            "the fix 'least_squares clips the candidate point to the bounds' the unclipped candidate x + D*dx left the box by rounding "
+            "(x0=-7, bounds [-1e6, 2.3], residual x-10 returned 2.3000000000000007); the oracle key "
+            "c46:candidate-outside-bounds-by-rounding and the reproduction inputs are kept as permanent regressions and must stay "
+            "silent; the driver's `witness` op still shows how often the UNCLIPPED arithmetic overshoots on Float and that the clip "
+            "repairs it (clipped_candidate_in_box_any_carrier is the theorem behind that). Dot products / norms of the "
             "model are sequential, numpy's are BLAS: they differ by ulps, which matters only if a threshold test is within an ulp "
             "(not observed). x_scale='jac', user Jacobians and check_derivatives are not modelled ('jac' runs are oracle-only). "
             "Termination of the two inner while loops is not proved (model fuel). linear_reaches_bounded_min_partial assumes the "
@@ -50,6 +53,9 @@ THEOREMS = [P + n for n in [
     "fd_probe_escapes_narrow_box",
     "candidate_in_bounds",
     "candidate_in_box",
+    "clipped_candidate_in_box_any_carrier",
+    "clip_order_real",
+    "candidate_clip_identity",
     "accept_monotone",
     "accept_needs_descent",
     "residual_calls_in_bounds",
@@ -282,7 +288,8 @@ def python_snippet(spec):
 
 
 DIRECTED = [
-    # the smallest instance found of the rounding escape: least_squares returns 2.3000000000000007 for the upper bound 2.3
+    # permanent regressions of the (fixed) rounding escape: before the fix least_squares returned 2.3000000000000007 for
+    # the upper bound 2.3 / evaluated the residual at 0.10000000000000009 for the upper bound 0.1
     {"fam": "lin", "n": 1, "m": 1, "A": [[1.0]], "b": [10.0], "q": 0.0, "x0": [-7.0], "lo": [-1e6], "hi": [2.3], "D": None,
      "max_iter": 100, "bounds_kind": "directed", "start_kind": "inside", "scale_kind": "none"},
     {"fam": "lin", "n": 1, "m": 1, "A": [[1.0]], "b": [10.0], "q": 0.0, "x0": [-3.0], "lo": [-10.0], "hi": [0.1], "D": None,
@@ -350,9 +357,9 @@ def oracle(spec, d):
             else:
                 outside_candidates.append(p)
                 if qc[1] == 0:
-                    fails.append((ROUNDING_KEY, "the residual is evaluated at a candidate x + D*dx outside the bounds although "
-                                  "mju_boxQP returned dlower <= dx <= dupper (rounding of (b - x)/D, D*dx and x + D*dx; the "
-                                  "candidate is not clipped)", ex))
+                    fails.append((ROUNDING_KEY, "the residual is evaluated at a candidate outside the bounds although mju_boxQP "
+                                  "returned dlower <= dx <= dupper (rounding of (b - x)/D, D*dx and x + D*dx: the candidate must "
+                                  "be clipped to the bounds)", ex))
                 else:
                     fails.append(("c46:candidate-outside-bounds", "a candidate is outside the bounds and mju_boxQP broke dlower <= dx <= dupper", ex))
             break
@@ -572,14 +579,18 @@ def run(ctx):
         ctx.differential("candidate arithmetic at a clamped bound (Float witness) vs numpy", [drv], impl_cmd(), wl,
                          keyf=lambda l: l)
         rcw, ow, _ = ctx.run_lines([drv], wl)
-        esc = [(l, o) for l, o in zip(wl, ow) if o.endswith("outside")]
-        ctx.extra["float_witnesses"] = {"tried": len(wl), "x_plus_D_times_dupper_above_upper": len(esc)}
+        esc = [(l, o) for l, o in zip(wl, ow) if o.split()[2:3] == ["outside"]]
+        still = [(l, o) for l, o in zip(wl, ow) if not o.endswith(" inside")]
+        ctx.extra["float_witnesses"] = {"tried": len(wl), "unclipped_x_plus_D_times_dupper_above_upper": len(esc),
+                                        "clipped_candidate_outside": len(still)}
+        ctx.oblige("Float witnesses: the clipped candidate is inside the box in every sampled case", "correspondence",
+                   rcw == 0 and len(ow) == len(wl) and not still, json.dumps(still[:3]))
         if esc:
             l, o = esc[0]
             _, lo_, hi_, x_, D_ = l.split()
             ctx.sample({"float_witness": {"upper": repr(h2f(hi_)), "x": repr(h2f(x_)), "D": repr(h2f(D_)),
-                                          "dupper=(upper-x)/D": repr(h2f(o.split()[0])), "x+D*dupper": repr(h2f(o.split()[1])),
-                                          "lean_driver_op": l, "lean_driver_output": o}})
+                                          "dupper=(upper-x)/D": repr(h2f(o.split()[0])), "unclipped x+D*dupper": repr(h2f(o.split()[1])),
+                                          "clipped": repr(h2f(o.split()[3])), "lean_driver_op": l, "lean_driver_output": o}})
     ctx.extra["status_histogram"] = stats["status"]
     ctx.extra["boxqp_contract"] = {"ok_calls": stats["qp"][0], "infeasible": stats["qp"][1],
                                    "ascent(grad.dx>0) with x inside the box": stats["qp"][2],
